@@ -8,6 +8,7 @@ package main
 // mutate its shared inputs" invariant; plus a free-running -race pass.
 
 import (
+	"bytes"
 	"context"
 	"encoding/json"
 	"errors"
@@ -45,6 +46,18 @@ type lockedRec struct {
 	norm   func(string) string // masks what differs between two builds of the same scenario (a random logger name)
 }
 
+// c08selfW is a destination that announces something through the logger it belongs to (at a severity that goes to the
+// logger's other device) before it stores what it was given.
+type c08selfW struct {
+	rec *lockedRec
+	l   *slog.Entry
+}
+
+func (w *c08selfW) Write(p []byte) (int, error) {
+	w.l.Warn("destination reopened", "bytes", len(p) > 0)
+	return w.rec.Write(p)
+}
+
 func (r *lockedRec) Write(p []byte) (int, error) {
 	sched.Point("Write")
 	r.mu.Lock()
@@ -65,6 +78,7 @@ type c08world struct {
 	rec     *lockedRec
 	shared  []slog.Attr // shared group attributes whose member order is snapshotted
 	calls   [][]func()  // per thread, the calls
+	writes  int         // Write calls one log call leads to (0 = 1; S18: the record and the destination's own notice)
 	noDense bool        // not explored in the build with a scheduling point before every statement (too many points)
 	snap    func() string
 }
@@ -445,6 +459,41 @@ func c08scenarios() []c08scenario {
 			}
 			return w
 		}},
+		{"S18 a destination that logs through the same logger from inside Write (a rotation notice at another severity)", 0, func(th, cp int) *c08world {
+			w := &c08world{rec: &lockedRec{}, noDense: true, writes: 2}
+			l := c08logger("s18", "logfmt", w.rec)
+			l.SetWriter(&c08selfW{w.rec, l})
+			for t := 0; t < th; t++ {
+				var cs []func()
+				for i := 0; i < cp; i++ {
+					t, i := t, i
+					cs = append(cs, func() { l.Info(fmt.Sprintf("s18 thread %d call %d", t, i), "k", t) })
+				}
+				w.calls = append(w.calls, cs)
+			}
+			return w
+		}},
+		{"S19 one thread logs records with sixty key, value pairs while the others log small ones", 0, func(th, cp int) *c08world {
+			w := &c08world{rec: &lockedRec{}, noDense: true}
+			l := c08logger("s19", "json", w.rec)
+			var many []any
+			for k := 0; k < 60; k++ {
+				many = append(many, fmt.Sprintf("p%02d", k), k)
+			}
+			for t := 0; t < th; t++ {
+				var cs []func()
+				for i := 0; i < cp; i++ {
+					t, i := t, i
+					if t == 0 {
+						cs = append(cs, func() { l.Info(fmt.Sprintf("s19 thread %d call %d", t, i), many...) })
+					} else {
+						cs = append(cs, func() { l.Info(fmt.Sprintf("s19 thread %d call %d", t, i), "k", t) })
+					}
+				}
+				w.calls = append(w.calls, cs)
+			}
+			return w
+		}},
 		{"S17 a logger with registered context keys, every call with context values of its own", 0, func(th, cp int) *c08world {
 			w := &c08world{rec: &lockedRec{}, noDense: true}
 			l := c08logger("s17", "json", w.rec)
@@ -530,10 +579,16 @@ func c08expected(sc *c08scenario, th, cp int) (expected map[string]int, problem 
 			if pan := catch(call); pan != "" {
 				return nil, "serial run panicked: " + firstLine(pan)
 			}
-			if len(w.rec.events) != n0+1 {
+			per := 1
+			if w.writes > 0 {
+				per = w.writes
+			}
+			if len(w.rec.events) != n0+per {
 				return nil, fmt.Sprintf("serial run: a call produced %d writes", len(w.rec.events)-n0)
 			}
-			expected[w.rec.events[n0]]++
+			for _, e := range w.rec.events[n0:] {
+				expected[e]++
+			}
 		}
 	}
 	if after := w.snapshot(); after != before {
@@ -547,8 +602,14 @@ func c08expected(sc *c08scenario, th, cp int) (expected map[string]int, problem 
 		for i := len(w2.calls[t]) - 1; i >= 0; i-- {
 			n0 := len(w2.rec.events)
 			catch(w2.calls[t][i])
-			if len(w2.rec.events) == n0+1 {
-				exp2[w2.rec.events[n0]]++
+			per := 1
+			if w2.writes > 0 {
+				per = w2.writes
+			}
+			if len(w2.rec.events) == n0+per {
+				for _, e := range w2.rec.events[n0:] {
+					exp2[e]++
+				}
 			}
 		}
 	}
@@ -797,6 +858,10 @@ func c08run(c *Ctx) {
 			for _, g := range []int{2, 8, 64} {
 				out, raced := c08raceChild(si, g, 20)
 				c.Count("race_pass_runs", 1)
+				if out == c08raceHung {
+					c.Note("race pass: " + scs[si].name + ": " + c08raceHung)
+					break
+				}
 				if raced {
 					c.Violate(mkViolation("C08|data-race|"+scs[si].name, "data-race", out, c08case{Scenario: si, Threads: g, Calls: 20, Kind: "race"}))
 					break
@@ -811,6 +876,8 @@ func c08run(c *Ctx) {
 
 // ---- free-running race pass
 
+const c08raceHung = "race pass child did not finish within 45 s (no verdict from this run)"
+
 func c08raceChild(scenario, goroutines, calls int) (string, bool) {
 	bin := os.Getenv("VERIF_RACE_BIN")
 	if bin == "" {
@@ -818,7 +885,22 @@ func c08raceChild(scenario, goroutines, calls int) (string, bool) {
 	}
 	cmd := exec.Command(bin, "-sub", "c08race", fmt.Sprint(scenario), fmt.Sprint(goroutines), fmt.Sprint(calls))
 	cmd.Env = append(os.Environ(), "GORACE=halt_on_error=1 exitcode=66", "GOMAXPROCS=8")
-	out, err := cmd.CombinedOutput()
+	var buf bytes.Buffer
+	cmd.Stdout, cmd.Stderr = &buf, &buf
+	if e := cmd.Start(); e != nil {
+		return e.Error(), false
+	}
+	done := make(chan error, 1)
+	go func() { done <- cmd.Wait() }()
+	var err error
+	select {
+	case err = <-done:
+	case <-time.After(45 * time.Second):
+		_ = cmd.Process.Kill()
+		<-done
+		return c08raceHung, false
+	}
+	out := buf.Bytes()
 	if err != nil && strings.Contains(string(out), "DATA RACE") {
 		s := string(out)
 		if i := strings.Index(s, "WARNING: DATA RACE"); i >= 0 {
